@@ -845,7 +845,7 @@ impl<'a> Evaluator<'a> {
                     }
                 }
                 let full = tok(&c.func);
-                if (full == "String::from" || full == "String::new" || full.ends_with("::to_owned") || full == "Box::new" || full == "Some" && false) && args.len() <= 1 {
+                if (full == "String::from" || full == "String::new" || full == "String::default" || full.ends_with("::to_owned") || full == "Box::new" || full == "Some" && false) && args.len() <= 1 {
                     return Ok(args.into_iter().next().unwrap_or(Val::Str(String::new())));
                 }
                 if full == "Vec::new" || full.starts_with("Vec::<") && full.ends_with("::new") {
@@ -927,7 +927,7 @@ impl<'a> Evaluator<'a> {
                             st.push_str(o);
                             Ok(Val::Unit)
                         }
-                        _ => Err("push_str: bad arguments".into()),
+                        o => Err(format!("push_str: bad arguments {:?}", o.map(|x| x.show()))),
                     },
                     (_, n) => Err(format!("unsupported in-place operation .{}()", n)),
                 }
